@@ -388,6 +388,14 @@ fn cases(tier: Tier) -> Vec<Case> {
             push(&mut out, s(&[b, "-i16", "-O1"]), code, b"", true);
         }
     }
+    // 4a. bare arguments that look like options but are not: every argument that is not a recognised
+    // option is code (`-` is a command), wherever it stands and whatever else it contains
+    for b in ["", "--inplace", "--bc-int"] {
+        for piece in ["-", "--", "---", "----", "--dec", "-x", "--llvm", "-O", "-O6", "-i", "-i7", "--limit7", "--print", "-+", "+-", "--inplace-", "-f.", "--static.", "--time-"] {
+            push(&mut out, s(&[b]), s(&[",+++", piece, "."]), b"AB", false);
+            push(&mut out, s(&[b, "-i16"]), s(&[piece, "-", "."]), b"", true);
+        }
+    }
     // 4b. help and a file that is not valid UTF-8
     for h in ["-h", "-help", "--help"] {
         push(&mut out, s(&[h]), s(&[PROBE_ECHO]), b"AB", false);
@@ -587,7 +595,7 @@ pub fn info(tier: Tier) -> CheckInfo {
              printer whose byte count separates in-place / IR / bytecode budgets, echo of stdin, --static x width; (2) every print option \
              x level x width: exact printed IR / bytecode text (the level's only observable), machine code non-empty, exit 0, stdin \
              offset 0; (3) every ordered pair of conflicting flags per group (executor/print kind, width, level): last one wins; invalid \
-             and missing --limit / -f operands; (4) code placement: two args in both orders, file+arg, arg+file, two files, missing file, file that is not valid UTF-8, \
+             and missing --limit / -f operands; (4) code placement: bare arguments that look like options (`--`, `---`, `-x`, `--dec`, `-O6` ...) between other code arguments, two args in both orders, file+arg, arg+file, two files, missing file, file that is not valid UTF-8, \
              unbalanced code, comment file, empty, the help flags — for every backend, flags before and after the code; (5) strace -e trace=mmap on 14 \
              backend-selecting shapes: an executable anonymous mapping appears iff the baseline JIT was selected. Probe separation is \
              recomputed through the library in every run. evaluations = process runs; distinct = distinct (argv, stdin).",
